@@ -118,6 +118,8 @@ def check(ctx):
             for tgt in (rdef2, path2):
                 if tgt in F.fns:
                     callers.setdefault(tgt, set()).add(g.root or g.id)
+    for tgt, cs in (getattr(F, "pre_subst_callers", None) or {}).items():
+        callers.setdefault(tgt, set()).update(cs)
     serving = set(GEN_FNS)
     for _ in range(4):
         for fid, cs in callers.items():
@@ -148,6 +150,7 @@ def check(ctx):
         else:
             ctx.bad("R16.1", "ambient/%s/%s" % (f.id, path.split("::")[-1]), "%s of %s outside Generation::*_next: in %s" % ("call" if kind == "call" else "function value", path, f.id), (span or {}).get("at"))
     roots = sorted({a[0] for a in allowed})
+    allowed = sorted(set(allowed))
     ctx.check(len(allowed) == 2 and roots == sorted(GEN_FNS), "R16.1", "positive-control/two-rand::rng-uses-in-generation",
               "ambient uses found: %s" % [(a[0].split("::")[-1], a[1], a[2]) for a in allowed], None,
               bad_detail="expected exactly the two known uses of rand::rng (serial_next call, par_next map_init value); found %s" % [(a[0], a[1], a[2]) for a in allowed])
